@@ -2,6 +2,7 @@
    changed textual fact breaks the obligations of the properties that own it and not those of every module that imports their lemmas. -/
 import CosetProofs.Ties.ContextRouting
 import CosetProofs.Ties.RecipientGuards
+import CosetProofs.Ties.Budget.Encrypt
 namespace Coset.Props.C05
 
 /-! ### ties to the source text (regenerated on every run, compared in the kernel with the transcribed tree) -/
@@ -12,5 +13,10 @@ theorem tie_recipient_guards : Coset.Gen.recipientGuards = Coset.Pinned.recipien
 
 #print axioms tie_context_routing
 #print axioms tie_recipient_guards
+
+/-- decision budget of `src/encrypt/mod.rs`: no branch, comparison or integer literal beyond the transcribed tree's (a needle no stream reaches still adds one). -/
+theorem tie_budget_encrypt : Coset.Ties.budgetCovered "encrypt" Coset.Gen.decisionBudget Coset.Pinned.decisionBudget = true := Coset.Ties.budget_encrypt
+
+#print axioms tie_budget_encrypt
 
 end Coset.Props.C05
